@@ -102,5 +102,10 @@ Print Assumptions C15_spec_view_correct.
 Example C15_rooted_example :
   rooted (mk_graph 5 [(0,1);(0,2);(1,3);(2,3);(3,1);(3,4);(4,4);(1,2);(2,1)]).
 Proof. apply rooted_b_sound. vm_compute. reflexivity. Qed.
+(* the mirror, evaluated inside Coq on that graph, returns the oracle's tables *)
+Example C15_mirror_runs :
+  let es := [(0,1);(0,2);(1,3);(2,3);(3,1);(3,4);(4,4);(1,2);(2,1)] in
+  run_mirror rev_order 5 es = Ok (spec_view (mk_graph 5 es)).
+Proof. vm_compute. reflexivity. Qed.
 Example C15_orders_ok : order_ok id_order /\ order_ok rev_order /\ order_ok rot_order.
 Proof. exact orders_ok. Qed.
